@@ -56,7 +56,7 @@ type yRule struct {
 }
 
 type yGrammar struct {
-	rules []yRule          // rules[0] is rule 1
+	rules []yRule           // rules[0] is rule 1
 	typ   map[string]string // symbol -> union field
 }
 
